@@ -94,14 +94,14 @@ def _decode_binary(text, header_type, bo):
     return declared, raw
 
 
-def decode_vti(path):
-    """Parse one .vti file.  Raises VTIFormatError if it is not a well-formed image-data file.
+def decode_vti(src):
+    """Parse one .vti file (a path, or its content as bytes).  Raises VTIFormatError if it is not a well-formed image-data file.
 
     Returns a dict with whole_extent, piece_extent, origin, spacing, npoints, ncells and ``arrays``: a list (file
     order) of dicts section/name/ncomp/type/format/declared_len/raw/values (values: 1-D numpy array in the declared
     type, native byte order)."""
     try:
-        root = ET.parse(path).getroot()
+        root = ET.fromstring(src) if isinstance(src, (bytes, bytearray)) else ET.parse(src).getroot()
     except ET.ParseError as e:
         raise VTIFormatError('xml', str(e))
     if root.tag != 'VTKFile' or root.get('type') != 'ImageData':
